@@ -337,7 +337,12 @@ func (sc *Scope) evalSel(x *ESel) Val {
 		if isStruct(ft) || isArray(ft) {
 			return Val{T: c.subRef(stT, idx, base.T), S: SRef, GT: types.NewPointer(ft), Addr: true}
 		}
-		return Val{T: c.hsel(sc.cur, c.fieldComp(stT, idx), base.T), S: c.sortOf(ft), GT: ft}
+		t := c.hsel(sc.cur, c.fieldComp(stT, idx), base.T)
+		if _, isSlice := ft.Underlying().(*types.Slice); isSlice && !strings.Contains(t, "q!") && !strings.Contains(t, "sp!") && !strings.Contains(t, "dummy!") {
+			// every slice value in the heap is well-formed (0 <= len <= cap, nil array => cap 0)
+			c.defFact(c.rangeFact(t, ft, 0))
+		}
+		return Val{T: t, S: c.sortOf(ft), GT: ft}
 	}
 	return Val{T: fmt.Sprintf("(%s %s)", c.selName(stT, idx), base.T), S: c.sortOf(ft), GT: ft}
 }
@@ -730,6 +735,10 @@ func (sc *Scope) evalCall(x *ECall) Val {
 		need(1)
 		v := arg(0)
 		return Val{T: fmt.Sprintf("(sl_arr %s)", v.T), S: SRef}
+	case "clk":
+		// clk(): the ghost call clock (time stamp the next tracked call will get)
+		need(0)
+		return Val{T: c.hget(sc.cur, "$clk"), S: c.intS(), GT: intT}
 	case "param":
 		// param(x): the entry value of parameter x (when a loop variable shadows its name)
 		need(1)
